@@ -44,6 +44,8 @@ STRENGTHENED = [
     ("seeded/C05-d", "helper whose body is annotated assignment(s) + return", "C05 helper styles that are NOT a single return (annotated assignment, two statements: must stay calls by name), keyword-only parameter, constant of the module (the last two exposed the genuine defects D36 and D35)"),
     ("seeded/C09-d", "processor of a registered function returns a shorter call", "C09: second registered function fn2(tag, scale=1.0) whose processor may drop the defaulted argument"),
     ("seeded/C12-d", "sync value() re-runs the query when the executor raises a RuntimeError (sub)class", "C12 executors raise one of six exception classes (RuntimeError, NotImplementedError, ValueError, KeyError, OSError families, plain Exception)"),
+    ("seeded/C18-d", "renaming pass plus a lambda with keyword-only parameters one of which has no default", "typed generator: called lambdas with keyword-only parameters (C02 / C18); exposed the genuine defect D37"),
+    ("seeded/C20-d", "string constants / identifiers that differ only up to Unicode normalisation", "C20 edits: look-alike text (NFKC/NFC/NFD forms, full-width letters, ligatures, composed vs decomposed accents) in string constants, names and attributes"),
     ("seeded/C08-c", "generic subclass with more type parameters than its base uses", "C08 skeleton: Tag(Box[K], Generic[K,V]), Tag2(Box[V], ...), Swap(Pair[U,T], ...), HalfPair(Pair[T,int]), It2(Iterable[V], ...), TagInts(Tag[int,V]); class names taken from typing. This extension also exposed the genuine defects D29 and D30"),
 ]
 
@@ -82,7 +84,7 @@ def main():
               "| change | what it needs | strengthening |", "|---|---|---|"]
     for a, b, c in STRENGTHENED:
         lines.append(f"| {a} | {b} | {c} |")
-    lines += ["", "Caught at the first attempt: seeded/C19, C19-b, C15, C15-b, C20, C20-b, C16, C16-b, C13, C14, C14-b, C09, C09-b, C12, C12-b, C03, C02-b, C04-b, C04-c, C07-b, C07-c, C08-b, C11-c, C12-c, C13-c, C15-c, C16-c, C20-c, C02-d, C06-d, C10-d, C11-d, C13-d, C14-d, C15-d.",
+    lines += ["", "Caught at the first attempt: seeded/C19, C19-b, C15, C15-b, C20, C20-b, C16, C16-b, C13, C14, C14-b, C09, C09-b, C12, C12-b, C03, C02-b, C04-b, C04-c, C07-b, C07-c, C08-b, C11-c, C12-c, C13-c, C15-c, C16-c, C20-c, C02-d, C06-d, C10-d, C11-d, C13-d, C14-d, C15-d, C16-d, C17-d, C19-d.",
               "Recurring lesson: most seeded changes need either a *naming coincidence* (same binder / method / variable name in two roles) or",
               "*process-level history* (a cache or shared default filled by an earlier query); generators must produce both on purpose.", ""]
     p = os.path.join(HERE, "DESIGN.md")
